@@ -448,8 +448,24 @@ pub fn check_pca(c: &Case, obs: &mut Obs) {
                 r2.sqrt() > RESID_MAX * qs[j].abs()
             })
             .collect();
-        if let [a, b] = bad.as_slice() {
-            let (a, b) = (*a, *b);
+        // the candidate pair: the only two components that are correlated / not orthogonal beyond TAU, or the only
+        // two that are no eigenvectors on their own scale (a small rotation may push just one of them over RESID_MAX)
+        let dot0 = |i: usize, j: usize| -> f64 { dirs[i].iter().zip(&dirs[j]).map(|(x, y)| x * y).sum() };
+        let cdot0 = |i: usize, j: usize| -> f64 { dirs[i].iter().zip(&cus[j]).map(|(x, y)| x * y).sum() };
+        let mut coupled: Vec<(usize, usize)> = vec![];
+        for i in 0..kk {
+            for j in i + 1..kk {
+                if dot0(i, j).abs() > TAU || cdot0(i, j).abs() > TAU * (qs[i].abs() * qs[j].abs()).sqrt() {
+                    coupled.push((i, j));
+                }
+            }
+        }
+        let pair: Option<(usize, usize)> = match (coupled.as_slice(), bad.as_slice()) {
+            ([(a, b)], bad) if bad.iter().all(|j| j == a || j == b) => Some((*a, *b)),
+            ([], [a, b]) => Some((*a, *b)),
+            _ => None,
+        };
+        if let Some((a, b)) = pair {
             let coord = |j: usize, m: usize| -> f64 { evecs[m].iter().zip(&dirs[j]).map(|(x, y)| x * y).sum() };
             let (caa, cab, cba, cbb) = (coord(a, a), coord(a, b), coord(b, a), coord(b, b));
             let in_plane = (1.0 - (caa * caa + cab * cab)).abs() <= RESID_MAX && (1.0 - (cba * cba + cbb * cbb)).abs() <= RESID_MAX;
@@ -469,7 +485,13 @@ pub fn check_pca(c: &Case, obs: &mut Obs) {
             let values_match = close(l[a], qa) && close(l[b], qb) && close(l[a], qs[a]) && close(l[b], qs[b]);
             let cov_ab = caa * cba * lam[a] + cab * cbb * lam[b];
             let cov_match = (cdot(a, b) - cov_ab).abs() <= RESID_MAX * (qs[a].abs() * qs[b].abs()).sqrt();
-            if in_plane && dot(a, b).abs() <= TAU && angle <= ROT_MAX && others_exact && others_orthogonal && values_match && cov_match {
+            // is the rotation visible to any obligation? (whitened covariance / score covariance / singular values)
+            let corr = cdot(a, b).abs() / (qs[a].abs() * qs[b].abs()).sqrt();
+            let visible = (c.whiten && corr > TAU)
+                || cdot(a, b).abs() > TAU * lam1
+                || (l[a] - lam[a]).abs() > TAU * lam1
+                || (l[b] - lam[b]).abs() > TAU * lam1;
+            if visible && in_plane && dot(a, b).abs() <= TAU && angle <= ROT_MAX && others_exact && others_orthogonal && values_match && cov_match {
                 rotated = Some((a, b, angle));
             }
         }
